@@ -4,10 +4,28 @@ Model: DTML/Batch.lean (`LazySt` = SequenceFromIter with pull log; `renderwbT` =
 ordered list of the accesses `renderwb` makes; `renderwobT` for unbatched).
 -/
 import DTML.Batch
+import DTML.Gen
 import DTML.Props.C11
 set_option linter.unusedVariables false
 namespace DTML.Props.C12
 open DTML.Batch
+
+/-! #### the accesses the model lists are the accesses the source makes
+
+Extracted from /repo's source on every run (harness/consts.py): every subscript of `sequence` and every call that needs
+the whole sequence (`len`, `list`, `tuple`, `sorted`, `reversed`) in `renderwb`, `renderwob` and `opt`, in source order.
+`renderwbT` / `optT` / `probeT` are written for exactly these: the emptiness test `sequence[0]`, the end clamp
+`sequence[end - 1]`, the look-ahead `sequence[end]` (in the `next` form and in the item loop) and `sequence[index]`;
+the four probes of `opt`, each with `len(sequence)` only in its `except` branch; one more `len(sequence)` in `renderwb`
+(the except branch of the end clamp) and the unconditional one of the unbatched renderer.  A new access to the whole
+sequence on the batch path changes these tables and this theorem stops checking. -/
+theorem gen_sequence_accesses :
+    Gen.renderwb_subscripts = ["0", "end - 1", "end", "end", "index"] ∧
+    Gen.renderwb_wholeSequenceCalls = ["len(sequence)"] ∧
+    Gen.renderwob_subscripts = ["0", "index"] ∧
+    Gen.renderwob_wholeSequenceCalls = ["len(sequence)"] ∧
+    Gen.opt_subscripts = ["start - 1", "end + orphan - 1", "end - 1", "end + orphan - 1"] ∧
+    Gen.opt_wholeSequenceCalls = ["len(sequence)", "len(sequence)", "len(sequence)", "len(sequence)"] := by decide
 
 /-! #### the traced functions compute the same windows as the C11 model -/
 
